@@ -405,9 +405,17 @@ Proof.
   destruct (collect_flags (zp_page z) f) as (Hi & Hf).
   destruct (page_free_collect (zp_page z) f) as [q e] eqn:E. cbn [fst] in *.
   destruct (collect_spec _ _ _ _ HI E) as (_ & _ & Er & Ec & _).
+  pose proof HI as (_ & _ & _ & _ & Hlt & _).
+  assert (K3' : is_zero_init (zp_page z) = true -> forall b, capacity (zp_page z) <= b -> b < reserved (zp_page z) ->
+                (if memN b (local_free (zp_page z) ++ thread_free (zp_page z)) then mkBg false (g_rest (zp_ghost z b)) else zp_ghost z b) = bg_zero).
+  { intros Hz b H1 H2. destruct (memN b (local_free (zp_page z) ++ thread_free (zp_page z))) eqn:Em; [|apply K3; assumption].
+    apply memN_In in Em. assert (b < capacity (zp_page z)) by (apply Hlt; apply in_app_iff; right; exact Em). lia. }
+  assert (Hrest : forall b, g_rest (if memN b (local_free (zp_page z) ++ thread_free (zp_page z)) then mkBg false (g_rest (zp_ghost z b)) else zp_ghost z b)
+                            = g_rest (zp_ghost z b)).
+  { intros b. destruct (memN b _); reflexivity. }
   rewrite Hi, Er, Ec. destruct Hf as [[Hf1 Hf2]|Hf].
-  - rewrite Hf1, Hf2. repeat split; assumption.
-  - rewrite Hf. repeat split; try discriminate. exact K3.
+  - rewrite Hf1, Hf2. split; [exact K0|]. split; [|exact K3']. intros Hz b Hin. rewrite Hrest. apply K1; assumption.
+  - rewrite Hf. split; [discriminate|]. split; [discriminate|exact K3'].
 Qed.
 
 (* ------------------------------------------------------------------------------------- *)
